@@ -5,6 +5,7 @@ package c12
 
 import (
 	"bytes"
+	"compress/gzip"
 	"context"
 	"encoding/binary"
 	"fmt"
@@ -264,6 +265,20 @@ func generate(thorough bool, emit func(kase)) {
 			emit(kase{Family: "every-type", Desc: fmt.Sprintf("type%d rdata%d", t, ri), Msg: m})
 		}
 	}
+	// (ii-e) HTTPS answers whose alias / service target contains a "label" with a length octet of 64..191 (reserved by RFC 1035;
+	// whatever the decoder makes of it, following that target must not crash the resolver)
+	for _, ll := range []int{63, 64, 65, 100, 191} {
+		for _, prio := range []byte{0, 1} {
+			rd := []byte{0, prio, byte(ll)}
+			rd = append(rd, bytes.Repeat([]byte{'x'}, ll)...)
+			rd = append(rd, 7, 'e', 'x', 'a', 'm', 'p', 'l', 'e', 0)
+			m := append(hdr(1, 1, 0, 0), qA[:3]...)
+			m = append(m, 0, 65, 0, 1) // the question asks for HTTPS
+			m = append(m, 0xc0, 12)
+			m = append(m, rrFixed(65, 60, len(rd))...)
+			emit(kase{Family: "long-label-target", Desc: fmt.Sprintf("label%d prio%d", ll, prio), Msg: append(m, rd...)})
+		}
+	}
 	// (ii-d) responses whose header RCODE is 0..15 and whose OPT record carries every extended-RCODE octet of interest in its
 	// TTL (the 12-bit response code is assembled from both): decoded, then consumed by the resolver
 	for rc := 0; rc < 16; rc++ {
@@ -290,7 +305,7 @@ func generate(thorough bool, emit func(kase)) {
 		}
 	}
 	// (v) DoH response bodies: content-length missing / lying / over the cap, with bodies up to 8 MiB (see runCase)
-	for _, v := range []string{"no-length-1MiB", "no-length-8MiB", "length-65536", "length-70000", "length-negative", "length-garbage", "length-10-body-5", "length-5-body-1MiB", "length-65535-full"} {
+	for _, v := range []string{"no-length-1MiB", "no-length-8MiB", "length-65536", "length-70000", "length-negative", "length-garbage", "length-10-body-5", "length-5-body-1MiB", "length-65535-full", "gzip-8MiB-in-9KB", "deflate-8MiB-in-9KB"} {
 		emit(kase{Family: "doh-body", Desc: v, Msg: append(hdr(1, 0, 0, 0), qA...)})
 	}
 	// (iii) header counts x number of records actually present
@@ -444,6 +459,18 @@ func runDoHBody(k kase, srv *dohmem.Server, res *ech.Resolver) (r workers.Result
 		a = dohmem.Answer{Raw: big(1 << 20), LengthHeader: "5"}
 	case "length-65535-full":
 		a = dohmem.Answer{Raw: big(65535)}
+	case "gzip-8MiB-in-9KB", "deflate-8MiB-in-9KB":
+		// an honest content-length (a few KB) and a Content-Encoding header: the body inflates to 8 MiB. The size cap is about what
+		// is decoded, not about what travelled
+		var zb bytes.Buffer
+		zw := gzip.NewWriter(&zb)
+		zw.Write(big(8 << 20))
+		zw.Close()
+		enc := "gzip"
+		if strings.HasPrefix(k.Desc, "deflate") {
+			enc = "deflate"
+		}
+		a = dohmem.Answer{Raw: zb.Bytes(), ContentEncoding: enc}
 	}
 	srv.Zone = func(string, uint16) dohmem.Answer { return a }
 	var ms0, ms1 runtime.MemStats
